@@ -1509,6 +1509,7 @@ class C13(Prop):
         obs['iter_error'] = err_name(e)
     obs['n_all'] = n_all
     obs['rebind_problems'] = self.bind_history(edited if edited is not None else case['tmpl'], hv)
+    obs['rebind_over_rejected'] = self._over_rejected
     if edited is not None:
       obs['edited_tmpl'] = edited
     if case.get('trace'):
@@ -1626,6 +1627,7 @@ class C13(Prop):
     P = _setup_pg()
     pg = P['pg']
     found = []
+    self._over_rejected = False
 
     def walk(j, v):
       if len(found) >= 2:
@@ -1655,6 +1657,12 @@ class C13(Prop):
       for ci, field, others in self.BIND_TARGETS:
         got = outcome(ph, ci, field, others)
         want = outcome(to_pg(cj), ci, field, others)
+        if got == 'rejected' and want != 'rejected':
+          # The `already bound` shortcut of custom_apply judges the two value specs, not the candidates: it may
+          # refuse what a fresh placeholder would be granted. Safe w.r.t. the property (nothing is decoded into
+          # a field that rejects it): recorded as an observation only.
+          self._over_rejected = True
+          continue
         if got != want:
           # (a List field with a larger min_size accepts what is bound to a List field with a smaller one:
           #  List._is_compatible ignores min_size, finding F09b of C04, pinned by value_specs_test.py:1121)
@@ -1911,6 +1919,8 @@ class C13(Prop):
                         else '<=100' if m['size'] <= 100 else '>100'))
     if 'trace' in m:
       h.append('dynamic-evaluation-traced')
+    if out['obs'].get('rebind_over_rejected'):
+      h.append('second-bind-refused-although-fresh-accepted(observation)')
     if any(o.get('history') and o['history']['edits'] for o in out['obs']['per_dna']):
       h.append('three-step-history(with in-place edit)')
     elif any(o.get('history') for o in out['obs']['per_dna']):
